@@ -6,6 +6,7 @@ CONSTANTS
   MaxDir = 1
   RuleLists = {{}, {"r1"}, {"r1", "r2"}}
   Decl = TRUE
+  Plugin = FALSE
   Switch = TRUE
   Odd = TRUE
   Sample = 0
